@@ -148,6 +148,32 @@ _add("SubSamplingWrapper:US", "SubSamplingWrapper", {"max_candidates": 0.5}, ["p
 _add("SubSamplingWrapper:excl", "SubSamplingWrapper", {"max_candidates": 3, "exclude_non_subsample": True}, ["pwc"], wrap="ProbabilisticAL", no14=True, rows=False)
 _add("ParallelWrapper:US", "ParallelUtilityEstimationWrapper", {"n_jobs": 1}, ["pwc"], wrap="UncertaintySampling:margin_sampling", no14=True, batch1=True, rows=False)
 
+# ---- variants that move the constructor parameters the entries above leave at their defaults
+# ({"cm": kind} / {"fn": name} / {"cluster": name} are placeholders resolved by build_strategy)
+_add("ProbabilisticAL:prior", "ProbabilisticAL", {"prior": 0.5, "m_max": 2, "metric": "rbf", "metric_dict": {"gamma": 0.5}}, ["pwc", "gnb"])
+_add("UncertaintySampling:lc_cost", "UncertaintySampling", {"method": "least_confident", "cost_matrix": {"cm": "asym"}}, ["pwc", "gnb"])
+_add("UncertaintySampling:ms_cost", "UncertaintySampling", {"method": "margin_sampling", "cost_matrix": {"cm": "asym"}}, ["pwc"])
+_add("MonteCarloEER:cost", "MonteCarloEER", {"cost_matrix": {"cm": "asym"}}, ["pwc"], heavy=True)
+_add("ValueOfInformationEER:cost", "ValueOfInformationEER", {"cost_matrix": {"cm": "asym"}}, ["pwc"], heavy=True)
+_add("QueryByCommittee:KL_eps", "QueryByCommittee", {"method": "KL_divergence", "eps": 1e-3}, ["rf_ens", "list_ens"])
+_add("Quire:lmbda", "Quire", {"classes": [0, 1], "lmbda": 0.25, "metric_dict": {"gamma": 0.5}}, heavy=True)
+_add("FourDs:lmbda", "FourDs", {"lmbda": 0.4}, ["mixture"], heavy=True)
+_add("CostEmbeddingAL:cost", "CostEmbeddingAL", {"classes": [0, 1], "cost_matrix": {"cm": "asym"}, "embed_dim": 2}, heavy=True)
+_add("ExpectedModelChangeMaximization:boot", "ExpectedModelChangeMaximization", {"bootstrap_size": 2, "n_train": 0.8, "ord": 1}, ["lin"], task="reg")
+_add("ExpectedModelOutputChange:loss", "ExpectedModelOutputChange", {"loss": {"fn": "abs_loss"}}, ["nic"], task="reg", heavy=True)
+_add("GreedySamplingX:sq", "GreedySamplingX", {"metric": "euclidean", "metric_dict": {"squared": True}}, task="reg")
+_add("GreedySamplingTarget:metrics", "GreedySamplingTarget", {"x_metric": "manhattan", "y_metric": "manhattan", "n_GSx_samples": 2}, ["lin", "nic"], task="reg")
+_add("BatchBALD:mc", "BatchBALD", {"n_MC_samples": 3, "eps": 1e-3}, ["rf_ens", "list_ens"])
+_add("GreedyBALD:eps", "GreedyBALD", {"eps": 1e-3}, ["rf_ens", "list_ens"])
+_add("Clue:mbk", "Clue", {"cluster_algo": {"cluster": "MiniBatchKMeans"}, "cluster_algo_dict": {"random_state": 0, "n_init": 1, "batch_size": 8}}, ["pwc"])
+_add("DropQuery:rate", "DropQuery", {"dropout_rate": 0.5, "n_dropout_samples": 3, "cluster_algo_dict": {"random_state": 0, "n_init": 1}}, ["pwc"])
+_add("TypiClust:mbk", "TypiClust", {"cluster_algo": {"cluster": "MiniBatchKMeans"}, "cluster_algo_dict": {"random_state": 0, "n_init": 1, "batch_size": 8}, "k": 2})
+_add("ProbCover:alpha", "ProbCover", {"alpha": 0.5, "cluster_algo_dict": {"random_state": 0, "n_init": 1}, "n_classes": 2})
+_add("ContrastiveAL:nn", "ContrastiveAL", {"nearest_neighbors_dict": {"n_neighbors": 3}, "eps": 1e-3}, ["pwc", "gnb"])
+_add("Falcun:gamma", "Falcun", {"gamma": 1.0}, ["pwc", "gnb"])
+_add("RegressionTreeBasedAL:rep1", "RegressionTreeBasedAL", {"method": "representativity", "max_iter_representativity": 1}, ["tree"], task="reg")
+_add("SubSamplingWrapper:int", "SubSamplingWrapper", {"max_candidates": 2}, ["pwc"], wrap="UncertaintySampling:lc_cost", no14=True, rows=False)
+
 # strategies that need a mapping from candidates to X (feature-row candidates are refused: MappingError)
 for _k, _e in _E.items():
     if _e["cls"] in ("Quire", "TypiClust", "ValueOfInformationEER", "DiscriminativeAL", "ProbCover", "CostEmbeddingAL"):
@@ -173,13 +199,32 @@ def build_strategy(entry_key, seed, overrides=None):
     kw = dict(e["init"])
     if e["flags"].get("wrap"):
         inner_seed = seed if isinstance(seed, int) else 0
-        kw["query_strategy"] = build_strategy(e["flags"]["wrap"], inner_seed)
+        kw["query_strategy"] = build_strategy(e["flags"]["wrap"], inner_seed, overrides=overrides)
+    n_cls = len(overrides["classes"]) if overrides and overrides.get("classes") else 2
+    kw = {k: _resolve(v, n_cls) for k, v in kw.items()}
     # deep-ish copy of dict params so that caller-owned dicts are fresh per object
     kw = {k: (np.array(v["nd"], dtype=float) if isinstance(v, dict) and set(v) == {"nd"} else (dict(v) if isinstance(v, dict) else (list(v) if isinstance(v, list) else v))) for k, v in kw.items()}
     if overrides:
         kw.update({k: v for k, v in overrides.items() if k != "classes" or "classes" in kw})
     kw["random_state"] = seed
     return strategy_class(e["cls"])(**kw)
+
+
+def abs_loss(y_true, y_pred):
+    return float(np.mean(np.abs(np.asarray(y_true, dtype=float) - np.asarray(y_pred, dtype=float))))
+
+
+def _resolve(v, n_cls):
+    """Placeholders of the registry: cost matrices sized to the class list, named functions, clustering classes."""
+    if isinstance(v, dict) and set(v) == {"cm"}:
+        return np.array([[0.0 if i == j else 1.0 + ((2 * i + j) % 3) for j in range(n_cls)] for i in range(n_cls)])
+    if isinstance(v, dict) and set(v) == {"fn"}:
+        return {"abs_loss": abs_loss}[v["fn"]]
+    if isinstance(v, dict) and set(v) == {"cluster"}:
+        import sklearn.cluster as C
+
+        return getattr(C, v["cluster"])
+    return v
 
 
 def query_params(entry_key):
